@@ -214,7 +214,7 @@ def run_encoders(ck):
     shard = 200
     # the shards are independent coqc runs: evaluate them side by side (the number printers made a case ~2x dearer)
     from concurrent.futures import ThreadPoolExecutor
-    with ThreadPoolExecutor(max_workers=6) as ex:
+    with ThreadPoolExecutor(max_workers=8) as ex:
         results = list(ex.map(lambda k: eval_cases(ck, "C15_enc_%d" % (k // shard), ok_cases[k:k + shard]), range(0, len(ok_cases), shard)))
     for m, v, r, fd, out in results:
         if m is None:
@@ -273,11 +273,13 @@ def run_encoders(ck):
     ck.coverage["distinct_nontrivial"] += len(distinct)
     ck.coverage["rule"] += ("encoders: random result sets (0..5 series runs, fingerprints incl. 0 / 2^64-1 / repeated in separate runs, 1..4 rows per run, "
                             "labels and lines over all byte classes incl. quotes, backslashes, controls, invalid UTF-8, int64 extremes, "
-                            "special floats), split into batches at random points with empty batches and io.EOF markers; "
+                            "special floats: the number texts are computed by the model from the timestamp and the float bits), split into batches at random points with empty batches and io.EOF markers; "
                             "the same rows drive streams / matrix / vector / tail; Prometheus writers: 0..5 series with label slices (duplicate names possible) "
                             "and 0..4 points, scalar, error message; list endpoints (tempo tags / tag values, labels, series): 0..7 byte strings of the same "
                             "classes, stored label documents valid / strconv.Quote-style / truncated; tempo trace / search: 0..6 spans or traces with random "
-                            "names, attributes of every kind, events, status; "
+                            "names, attributes of every kind, events, status, nil / non-nil span sets, durations in both float layouts (the struct field values are the model's input); "
+                            "numfmt: 1..4 (int64, float64) pairs per case fed to the Go printers themselves: any bit pattern, powers of two and their neighbours, "
+                            "denormals, the switch points 1e-6 / 1e21, half-way sixth decimals, |int64| beyond 2^53; "
                             "overlapping requests: the Prometheus, tempo and (one in four) row cases are observed a second time while another request of "
                             "the same family is served inside every Write / before every received chunk is copied (GOMAXPROCS 1: pooled streams are reused); "
                             "non-trivial = >=2 series, >=3 rows, >=2 batches (row encoders), >=2 series or points (Prometheus), >=2 items (list and "
@@ -311,12 +313,29 @@ def run_pool_order(ck):
                   "; ".join("%s:%d %s: %s" % (os.path.relpath(v["file"], vcheck.REPO), v["line"], v["func"], v["what"]) for v in bad[:5]))
 
 
+def run_tail_frames(ck):
+    """generated obligation: every literal text frame the Tail websocket handler sends is the model's empty Tail frame"""
+    import vcheck
+    src = open(os.path.join(vcheck.REPO, "reader/controller/queryRangeController.go")).read()
+    lits = re.findall(r"WriteMessage\(ws\.TextMessage,\s*\[\]byte\(`([^`]*)`\)\)", src)
+    dyn = re.findall(r"WriteMessage\(ws\.TextMessage,\s*\[\]byte\((?!`)([^)]*)\)\)", src)
+    ck.extra["tail_frames"] = {"literal": lits, "dynamic": dyn}
+    ck.obligation("Tail websocket: the only literal frame is the keep-alive {\"streams\":[]} (= render (enc_tail cur_hdr []), Example tail_keepalive_frame); "
+                  "every other frame is one QueryRangeOutput.Str of the service", lits == ['{"streams":[]}'] and dyn == ["str.Str"],
+                  "literal %s dynamic %s" % (lits, dyn))
+
+
 def run(ck):
     ck.trusted += [
-        "C15: jsoniter's Stream API is modelled by render (tokens -> bytes) and checked byte-exactly by the correspondence; encoding/json.Marshal is a trusted library",
-        "C15: the texts of floats (fmt %f, strconv.FormatFloat) are inputs of the model; that they are JSON numbers and parse back to the value is a hypothesis, checked on every generated case",
+        "C15: jsoniter's Stream API is modelled by render (tokens -> bytes) and checked byte-exactly by the correspondence; encoding/json's string escaper, "
+        "struct walk and float layout are modelled (gojson_quote, tokensJ_of, gojson_float_text) and compared byte-exactly with json.Marshal on every tempo case",
+        "C15: the Go number printers (fmt %f, strconv.FormatFloat 'f' -1, WriteFloat64, %d) and float64(int64)/1e9, /1000 are modelled in model/GoFloat.v; tied by "
+        "byte-exact comparison on every case and on arbitrary float64 bit patterns (kind numfmt), and to Coq's SpecFloat for the quotients",
         "C15: Go map iteration order is read back from the body (accepted only when it is a permutation of the input keys)",
+        "C15: /series: the decoding of a stored label text that is not JSON (strconv.Unquote fallback of storedLabels) is an input of the model; texts that are "
+        "JSON objects of strings are decoded by the Coq reader itself",
     ]
     ck.coq_props()
+    run_tail_frames(ck)
     run_pool_order(ck)
     run_encoders(ck)
